@@ -67,22 +67,29 @@ def prepare(cfg):
     hG.prepare(hG.CFG)
     text = hG.STATE['text']
     STATE['text'] = text
+    # positions are reported against the text the tokenizer saw (CRLF / CR -> LF outside XML mode)
+    norm = text.replace('\r\n', '\n').replace('\r', '\n')
     planted = sites(cfg['prog'])
     # offset of the k-th planted site = k-th occurrence of its text, in document order
     offs = {}
     pos = 0
     for k in sorted(planted):
-        i = text.index(planted[k], pos)
+        i = norm.index(planted[k], pos)
         offs[k] = i
         pos = i + len(planted[k])
     STATE['offsets'] = offs
+    STATE['locations'] = {}
+    for k in offs:
+        j = offs[k] + (len(planted[k]) - len(planted[k].lstrip()))
+        before = norm[:j]
+        STATE['locations'][k] = (before.count('\n') + 1, len(before) - (before.rfind('\n') + 1))
     STATE['planted'] = planted
     # strict construction: must fail iff something is planted, at compile time, with the first site's token
     try:
         PageTemplate(text, strict=True)
         STATE['strict'] = ('ok',)
     except ExpressionError as exc:
-        STATE['strict'] = ('invalid', str(exc.token), exc.offset)
+        STATE['strict'] = ('invalid', str(exc.token), exc.offset, getattr(exc.token, 'location', None))
     except Exception as exc:
         STATE['strict'] = ('exc', type(exc).__name__)
     if not planted:
@@ -96,6 +103,8 @@ def check(mk):
         first = min(planted)
         if st[0] != 'invalid' or st[1] != planted[first].strip() or st[2] != STATE['offsets'][first]:
             return False
+        if st[3] != STATE['locations'][first]:
+            return False                      # line / column of the strict report
         if hG.STATE.get('compile_error'):
             return False                      # non-strict construction must succeed
     elif STATE['strict'] != ('ok',):
@@ -106,7 +115,7 @@ def check(mk):
         # the reference reached planted site k -> the same ExpressionError, located at that site
         k = ref[4][0]
         return eng[0] == 'exc' and eng[1] == 'ExpressionError' and \
-            eng[3] == (planted[k].strip(), STATE['offsets'][k])
+            eng[3] == (planted[k].strip(), STATE['offsets'][k]) and eng[4] == STATE['locations'][k]
     if not hG._agree1(eng, ref):
         return False
     if not planted:
